@@ -192,7 +192,7 @@ def run(ctx):
     ctx.inst("C01.R1", "check_arity-dominates", len(chk) == 1 and all(fc.dominates(chk[0], u) for u in uses), "check_arity(args.len())? dominates the built-in dispatch and the body evaluation", fc.loc(chk[0]) if chk else None)
 
     # ---------------- R2 heap borrow typestate
-    ctx.rule("C01.R2", "RefCell<Heap> typestate: no borrow_mut (direct, or through a callee that may borrow mutably, including closures handed to adapters) while a Ref/RefMut guard of the heap may be live, and no borrow while a RefMut guard may be live", floor=200)
+    ctx.rule("C01.R2", "RefCell<Heap> typestate: no borrow_mut (direct, or through a callee that may borrow mutably, including closures handed to adapters) while a Ref/RefMut guard of the heap may be live, and no borrow while a RefMut guard may be live", floor=20)
 
     def gk(callee, argtys, dest_ty):
         if callee == "core::cell::RefCell::<T>::borrow" and argtys and HEAPCELL in argtys[0]:
